@@ -42,7 +42,7 @@ def template(draw):
         acts = []
         for _ in range(draw(st.integers(0, 3))):
             ctx = draw(st.sampled_from(["enter", "recur", "exit"]))
-            k = draw(st.sampled_from(["putf", "incf", "putfr", "incfr"]))
+            k = draw(st.sampled_from(["putf", "incf", "putfr", "putfr"]))
             v = draw(st.integers(1, 3))
             acts.append([ctx, k, v])
         if i + 1 < nfr:
@@ -69,6 +69,8 @@ def moot_lines(name, body, nested, sched):
     L = ["framer %s be %s" % (name, sched)]
     for i, fr in enumerate(body):
         L.append("frame %s%d" % (name[0].upper(), i))
+        if i == 0:
+            L.append("put 0 into cnt of framer")   # relative shares are initialised before they are read
         if nested and nested["frame"] == i:
             L.append("aux inner0 as %s" % nested["tag"])
         cur = "native"
@@ -105,7 +107,7 @@ def moot_lines(name, body, nested, sched):
 def script(tp, baseline=None):
     """baseline = None: the clone script. baseline = ("static", j) / ("rear",): script in which M is a plain
     aux used where that clone is; all other clone clauses are placeholders (same line count)."""
-    L = ["house h", "init .d.a with 0", "init framer.org.cnt with 0", "framer drv be active in front", "frame drva", "recur", "inc .d.a with 1"]
+    L = ["house h", "init .d.a with 0", "framer drv be active in front", "frame drva", "recur", "inc .d.a with 1"]
     L += ["framer main be active first f1"]
     rear = tp["rear"]
     for fname in ("f1", "f2"):
